@@ -325,6 +325,25 @@ func checkC08(c *Ctx) {
 			if v.Kind == "call" && v.Call.Common().StaticCallee() != nil && p.IsRepoFunc(v.Call.Common().StaticCallee()) && len(v.Args) == 3 {
 				delayFn = v.Call.Common().StaticCallee()
 				nOk++
+				// the interval waited: the configured continue interval (the auto-open-end branch uses a constant)
+				iv := p.Sym(v.Call.Common().Args[1]).Strip()
+				okIv := true
+				iv.Walk(func(x *Sym) bool {
+					switch x.Kind {
+					case "phi":
+						return true
+					case "const":
+						return false
+					default:
+						if !x.IsField("TableEngineOptions", "GameContinueInterval") {
+							okIv = false
+						}
+						return false
+					}
+				})
+				if !okIv {
+					okSched, dSched = false, "the handler is scheduled after "+iv.String()+", not the configured continue interval"
+				}
 				// the handler argument resolves to closures of the continue step
 				fv := p.CG().funcValue(v.Call.Common().Args[2])
 				if len(fv.fns) == 0 || fv.external {
